@@ -6,7 +6,7 @@ import gen, lang, meta, findings, ftstruct
 from props import c04, c03
 
 PROP_FILE = 'Props/C12.v'
-GROUPS = ['imain', 'transformers']
+GROUPS = ['imain', 'transformers', 'parts']
 LEAF_LEMMAS = []
 ASSUMPTIONS = ['gringo/clasp contract G1-G6 (DESIGN.md 5.3)']
 
@@ -161,7 +161,20 @@ def run(ctx):
             if r['status'] not in ('agree', 'agree-rejected'):
                 cex.append({'key': 'c12:transform:%s:%s' % (split, r['program'].replace('\n', ' ')), 'what': 'transform() and Model/FutTransform.transform_program differ (%s): %s' % (
                     'two input texts' if split else 'one input text', r.get('what')), 'input': {'transform_rules': p, 'split': split, 'program': r['program']}})
-    cov = {'evaluations': len(inputs) + 2 * len(sp), 'transform_structure_status': sstat, 'distinct_nontrivial': len(nontriv),
+    # layouts: the statements of these programs with ARBITRARY #program directives between them (base, initial, always, dynamic, final), cut into 1-3 input
+    # texts at random places - a text may begin without a directive, be empty, end in any part - through transform() and through Model/Inputs.transform_inputs
+    # (directives resolved by the REGENERATED visit_Program; every text begins with the `#program base.` the parser of clingo puts there)
+    lrecs, lprep = ftstruct.compare_layouts(ctx, sp, ctx.rng('layouts'))
+    for (texts, line, ids), r in zip(lprep, lrecs):
+        k = r['status'] + '/layout'
+        sstat[k] = sstat.get(k, 0) + 1
+        if r['status'] not in ('agree', 'agree-rejected'):
+            cex.append({'key': 'c12:layout:%s' % r['program'].replace('\n', ' '), 'what': 'transform() and Model/Inputs.transform_inputs differ on a layout of directives and input texts: %s' % r.get('what'),
+                        'input': {'layout_texts': texts, 'layout_line': line, 'ids': ids, 'program': r['program']}})
+    heads = ctx.impl().run([{'cmd': 'parsehead', 'texts': ['', 'a.', '#program always.\na.', '% comment only', 'a.\n#program final.']}])[0]
+    if heads.get('first') != ['#program base.'] * 5:
+        cex.append({'key': 'c12:parser-contract', 'what': 'the parser of clingo does not begin every text with `#program base.`: %s' % json.dumps(heads), 'input': {'contract': 'parsehead'}})
+    cov = {'evaluations': len(inputs) + 2 * len(sp) + len(lrecs), 'transform_structure_status': sstat, 'distinct_nontrivial': len(nontriv),
            'rule': 'base programs from the core / future / body-formula / head-formula / del generators; variants %s; horizons 0..%d compared with multiplicity against the original; '
                    'non-trivial = distinct variant with at least one answer set' % (json.dumps(kinds), H),
            'samples': [{'kind': index[j][1], 'texts': inputs[j]} for j in (1, 2, 3)]}
@@ -170,6 +183,10 @@ def run(ctx):
 
 def replay(ctx, payload):
     inp = payload['input']
+    if 'layout_texts' in inp:
+        return ftstruct.compare_prepared(ctx, [(inp['layout_texts'], inp['layout_line'], inp['ids'])], True)[0]['status'] not in ('agree', 'agree-rejected')
+    if 'contract' in inp:
+        return ctx.impl().run([{'cmd': 'parsehead', 'texts': ['a.']}])[0].get('first') != ['#program base.']
     if 'transform_rules' in inp:
         return ftstruct.compare(ctx, [inp['transform_rules']], split=inp.get('split', False))[0]['status'] not in ('agree', 'agree-rejected')
     res = meta.answer_sets(ctx, [[inp['original']], inp['texts']], inp.get('H', 3), hide=('wobs',))
